@@ -73,7 +73,7 @@ class BufferingEDXMLEventMerger(EDXMLPushFilter):
 
         super().__init__(output=sys.stdout.buffer)
         self.__buffer_size = 0
-        self.__max_latency = latency
+        self.__max_latency = latency or 0
         self.__max_buffer_size = event_buffer_size
         self.__last_output_time = time.time()
         self.__hash_buffer = {}  # type: Dict[str, List[EDXMLEvent]]
